@@ -74,4 +74,46 @@ example : ServerForm.grpcWeb.timeoutHeader = some (s "Grpc-Timeout") := rfl
 example : ServerForm.connectUnary.timeoutText 250000000 = s "250" := by decide +kernel
 example : ClientForm.grpc.timeoutOf [(s "Grpc-Timeout", [s "15S"])] = some (some 15000000000) := by decide +kernel
 
+
+/-- The client form of a validated operation is the one `classifyRequest` gave. -/
+theorem validate_cform (w : World) (t : TConf) (r : Req) (o : Op) (hv : validate w t r = .ok o) :
+    classifyRequest r = some o.cform := by
+  unfold validate at hv
+  split at hv
+  · simp at hv
+  · rename_i c hc
+    split at hv
+    · simp at hv
+    · split at hv
+      · simp at hv
+      · split at hv
+        · simp at hv
+        · split at hv
+          · simp at hv
+          · split at hv
+            · simp at hv
+            · split at hv
+              · simp at hv
+              · simp only at hv
+                repeat' split at hv
+                all_goals first
+                  | (simp at hv; done)
+                  | (simp only [Except.ok.injEq] at hv
+                     rw [← hv]
+                     exact hc)
+
+/-- **A malformed timeout is rejected before the backend is invoked**: when the client protocol's extraction cannot
+    read the timeout header (`Grpc-Timeout: 1s`, `Connect-Timeout-Ms: abc`, ...), the request is never validated. -/
+theorem malformed_timeout_rejected (w : World) (t : TConf) (r : Req) (c : ClientForm)
+    (hc : classifyRequest r = some c) (hbad : c.timeoutOf r.headers = none) : ∀ o, validate w t r ≠ .ok o := by
+  intro o h
+  have h1 := validate_cform w t r o h
+  rw [hc] at h1
+  have h2 := validate_timeout w t r o h
+  simp only [Option.some.injEq] at h1
+  rw [← h1, hbad] at h2
+  cases h2
+
+example : ClientForm.grpc.timeoutOf [(s "Grpc-Timeout", [s "1s"])] = none := by decide +kernel
+
 end Vanguard.C12
